@@ -232,7 +232,7 @@ CLAIMS = {
             "Decides C04 relative to a reference schema: active_vertices_connected (acyclic off/on) is evaluated abstractly on eleven "
             "small graphs (single vertex, edge, edge plus isolated vertex, path, triangle, star with isolated vertex, square, two components, "
             "parallel edges, triangle plus isolated vertex, parallel edges plus isolated vertex), with the activity flags given as variables, "
-            "with Python constants among them and as negated variables; every explicit Graph is looked at (all its properties and argument-less methods evaluated) before its last edge is added, so a value cached on the object would be stale; "
+            "with Python constants among them and as negated variables; every explicit Graph is looked at (all its properties and argument-less methods evaluated) before its last edge is added, so a value cached on the object would be stale; (ENC-H) seven calls (four graphs, three grid forms) alone and as a sequence repeated twice in one interpreter state post identical constraints - nothing is carried from call to call; "
             "the constraint trees it posts are canonicalised (commutativity, comparison direction, negation, count/threshold normal "
             "forms; rank domains compared by sufficiency >= n) and must equal the reference rank/root schema written in the checker "
             "(each active vertex has >=1 [==1 when acyclic, with distinct neighbour ranks] active strictly-lower neighbour or is "
